@@ -39,6 +39,11 @@ def Local (s : St) (t : Nat) : Pc → Prop
   | .pushReady n => n ≠ 0 ∧ s.owner n = some t
   | .pushGotHead n _ => n ≠ 0 ∧ s.owner n = some t
   | .pushWroteNext n h => n ≠ 0 ∧ s.owner n = some t ∧ s.next n = h
+  | .toReady n _ => n ≠ 0 ∧ s.owner n = some t
+  | .toGotHead n _ _ => n ≠ 0 ∧ s.owner n = some t
+  | .toWroteNext n h _ => n ≠ 0 ∧ s.owner n = some t ∧ s.next n = h
+  -- a push_timeout that gave up still owns its node
+  | .toGaveUp n => n ≠ 0 ∧ s.owner n = some t
   | .revLoop hd acc todo done => RevOk s.next s.owner (s.res t) t hd acc todo done
   | .revGotNext hd acc x todo done => RevOk s.next s.owner (s.res t) t hd acc todo done ∧ s.next hd = x
   | .walk p k rest => WalkOk s.next s.owner (s.res t) t p k rest
@@ -68,6 +73,10 @@ theorem local_frame {s s' : St} {t : Nat} {pc : Pc} (h : Local s t pc)
   case pushReady n => exact ⟨h.1, (hfr n h.2).2⟩
   case pushGotHead n hd => exact ⟨h.1, (hfr n h.2).2⟩
   case pushWroteNext n hd => exact ⟨h.1, (hfr n h.2.1).2, by rw [(hfr n h.2.1).1]; exact h.2.2⟩
+  case toReady n b => exact ⟨h.1, (hfr n h.2).2⟩
+  case toGotHead n hd b => exact ⟨h.1, (hfr n h.2).2⟩
+  case toWroteNext n hd b => exact ⟨h.1, (hfr n h.2.1).2, by rw [(hfr n h.2.1).1]; exact h.2.2⟩
+  case toGaveUp n => exact ⟨h.1, (hfr n h.2).2⟩
   case revLoop hd acc todo done =>
     exact ⟨h.hd0, chain_of_eq (fun n hn => (hfr n (h.otodo n hn)).1) h.ctodo,
       chain_of_eq (fun n hn => (hfr n (h.odone n hn)).1) h.cdone,
@@ -124,6 +133,21 @@ theorem step_retPush (s s' : St) (t : Nat) (hI : Inv s)
   subst h
   exact ⟨hI.chain, hI.nodup, hI.own, loc_pconly hI rfl rfl rfl rfl (by simp [Local]), hI.lin⟩
 
+theorem step_callPushTo (s s' : St) (t v b : Nat) (hI : Inv s)
+    (h : step s (.callPushTo t v b) = some s') : Inv s' := by
+  simp only [step] at h
+  split at h <;> simp at h
+  subst h
+  exact ⟨hI.chain, hI.nodup, hI.own, loc_pconly hI rfl rfl rfl rfl (by simp [Local]), hI.lin⟩
+
+theorem step_retPushTo (s s' : St) (t r : Nat) (hI : Inv s)
+    (h : step s (.retPushTo t r) = some s') : Inv s' := by
+  simp only [step] at h
+  split at h <;> simp at h
+  all_goals
+    obtain ⟨_, rfl⟩ := h
+    exact ⟨hI.chain, hI.nodup, hI.own, loc_pconly hI rfl rfl rfl rfl (by simp [Local]), hI.lin⟩
+
 theorem step_callFlush (s s' : St) (t : Nat) (b : Bool) (hI : Inv s)
     (h : step s (.callFlush t b) = some s') : Inv s' := by
   simp only [step] at h
@@ -142,21 +166,32 @@ theorem step_wrData (s s' : St) (t n v : Nat) (hI : Inv s)
     (h : step s (.wrData t n v) = some s') : Inv s' := by
   simp only [step] at h
   split at h <;> simp at h
-  obtain ⟨⟨rfl, hn0, hown_n⟩, rfl⟩ := h
-  have hnotin : n ∉ s.stk := by
-    intro hm; have := (hI.own n).1 hm; simp [this] at hown_n
-  refine ⟨hI.chain, hI.nodup, hI.own, loc_pconly hI rfl rfl rfl rfl (by simp [Local, hn0, hown_n]), ?_⟩
-  show stackReplay s.lin = some (s.stk.map (fun m => (m, upd s.data n v m)))
-  rw [map_data_upd hnotin]; exact hI.lin
+  · obtain ⟨⟨rfl, hn0, hown_n⟩, rfl⟩ := h
+    have hnotin : n ∉ s.stk := by
+      intro hm; have := (hI.own n).1 hm; simp [this] at hown_n
+    refine ⟨hI.chain, hI.nodup, hI.own, loc_pconly hI rfl rfl rfl rfl (by simp [Local, hn0, hown_n]), ?_⟩
+    show stackReplay s.lin = some (s.stk.map (fun m => (m, upd s.data n v m)))
+    rw [map_data_upd hnotin]; exact hI.lin
+  · -- push_timeout: the same store
+    obtain ⟨⟨rfl, hn0, hown_n⟩, rfl⟩ := h
+    have hnotin : n ∉ s.stk := by
+      intro hm; have := (hI.own n).1 hm; simp [this] at hown_n
+    refine ⟨hI.chain, hI.nodup, hI.own, loc_pconly hI rfl rfl rfl rfl (by simp [Local, hn0, hown_n]), ?_⟩
+    show stackReplay s.lin = some (s.stk.map (fun m => (m, upd s.data n v m)))
+    rw [map_data_upd hnotin]; exact hI.lin
 
 theorem step_ldHead (s s' : St) (t hd : Nat) (hI : Inv s)
     (h : step s (.ldHead t hd) = some s') : Inv s' := by
   simp only [step] at h
   split at h <;> simp at h
-  rename_i n hpc
-  obtain ⟨rfl, rfl⟩ := h
-  have h1 := hI.loc t; rw [hpc] at h1; simp only [Local] at h1
-  exact ⟨hI.chain, hI.nodup, hI.own, loc_pconly hI rfl rfl rfl rfl (by simpa [Local] using h1), hI.lin⟩
+  · rename_i n hpc
+    obtain ⟨rfl, rfl⟩ := h
+    have h1 := hI.loc t; rw [hpc] at h1; simp only [Local] at h1
+    exact ⟨hI.chain, hI.nodup, hI.own, loc_pconly hI rfl rfl rfl rfl (by simpa [Local] using h1), hI.lin⟩
+  · rename_i n b hpc
+    obtain ⟨rfl, rfl⟩ := h
+    have h1 := hI.loc t; rw [hpc] at h1; simp only [Local] at h1
+    exact ⟨hI.chain, hI.nodup, hI.own, loc_pconly hI rfl rfl rfl rfl (by simpa [Local] using h1), hI.lin⟩
 
 theorem step_rdData (s s' : St) (t n v : Nat) (hI : Inv s)
     (h : step s (.rdData t n v) = some s') : Inv s' := by
@@ -225,6 +260,14 @@ theorem step_wrNext (s s' : St) (t m x : Nat) (hI : Inv s)
       intro hm; have := (hI.own m).1 hm; rw [this] at h1; simp at h1
     exact ⟨chain_upd_notin hnotin hI.chain, hI.nodup, hI.own,
       loc_wrNext (v := x) hI h1.2 rfl rfl rfl rfl (by simp [Local, h1.1, h1.2, upd]), hI.lin⟩
+  · -- push_timeout: n->next = head (own node)
+    rename_i n hd b hpc
+    obtain ⟨⟨rfl, rfl⟩, rfl⟩ := h
+    have h1 := hI.loc t; rw [hpc] at h1; simp only [Local] at h1
+    have hnotin : m ∉ s.stk := by
+      intro hm; have := (hI.own m).1 hm; rw [this] at h1; simp at h1
+    exact ⟨chain_upd_notin hnotin hI.chain, hI.nodup, hI.own,
+      loc_wrNext (v := x) hI h1.2 rfl rfl rfl rfl (by simp [Local, h1.1, h1.2, upd]), hI.lin⟩
   · -- reverse: head->next = fifo (own node)
     rename_i hd acc nx todo done hpc
     obtain ⟨⟨rfl, rfl⟩, rfl⟩ := h
@@ -273,6 +316,36 @@ theorem step_wrNext (s s' : St) (t m x : Nat) (hI : Inv s)
         · subst e; intro e'; subst e'; exact hnd.1.1 ha
         · exact hnd2.2.2 a ha b e
 
+/-- the success branch of the CAS, shared by `mpmc_stack_push` and `mpmc_stack_push_timeout`:
+    `des` is a node `t` owns whose `next` is the head right now -/
+theorem inv_cas_success {s : St} {t des : Nat} {new : Pc} {att : Nat → Nat} (hI : Inv s)
+    (hn0 : des ≠ 0) (hown : s.owner des = some t) (hnext : s.next des = s.head)
+    (hnew : ∀ s' : St, Local s' t new) :
+    Inv { s with head := des, owner := upd s.owner des none, stk := des :: s.stk,
+                 lin := s.lin ++ [.push des (s.data des)], pc := upd s.pc t new, att := att } := by
+  have hnotin : des ∉ s.stk := by
+    intro hm; have := (hI.own des).1 hm; rw [this] at hown; simp at hown
+  refine ⟨?_, ?_, ?_, ?_, ?_⟩
+  · show Chain s.next des (des :: s.stk)
+    simp; refine ⟨hn0, ?_⟩; rw [hnext]; exact hI.chain
+  · show (des :: s.stk).Nodup
+    simp [hnotin, hI.nodup]
+  · intro m; show m ∈ des :: s.stk ↔ upd s.owner des none m = none
+    simp only [upd]; split
+    · simp_all
+    · rename_i hne; simp [hne, hI.own m]
+  · intro t'
+    by_cases e : t' = t
+    · subst e; show Local _ t' (upd s.pc t' new t'); rw [upd_same]; exact hnew _
+    · show Local _ t' (upd s.pc t new t')
+      simp only [upd, e, if_false]
+      refine local_frame (hI.loc t') (fun m hm => ?_) rfl
+      have : m ≠ des := by
+        intro e'; subst e'; rw [hown] at hm; simp at hm; exact e hm.symm
+      exact ⟨rfl, by simp [upd, this]; exact hm⟩
+  · show stackReplay (s.lin ++ [.push des (s.data des)]) = some ((des :: s.stk).map (fun n => (n, s.data n)))
+    rw [stackReplay_snoc, hI.lin]; simp [stackStep]
+
 theorem step_cas (s s' : St) (t found exp des : Nat) (ok : Bool) (hI : Inv s)
     (h : step s (.cas t found exp des ok) = some s') : Inv s' := by
   simp only [step] at h
@@ -283,34 +356,28 @@ theorem step_cas (s s' : St) (t found exp des : Nat) (ok : Bool) (hI : Inv s)
     rename_i hcond
     obtain ⟨rfl, rfl, rfl, hok⟩ := hcond
     have h1 := hI.loc t; rw [hpc] at h1; simp only [Local] at h1
-    have hnotin : des ∉ s.stk := by
-      intro hm; have := (hI.own des).1 hm; rw [this] at h1; simp at h1
     split at h <;> simp at h <;> subst h
     · -- success: `exp` is the head right now, whatever happened to that node meanwhile
       rename_i hoktrue
       simp [hoktrue] at hok
-      refine ⟨?_, ?_, ?_, ?_, ?_⟩
-      · show Chain s.next des (des :: s.stk)
-        simp; refine ⟨h1.1, ?_⟩; rw [h1.2.2, ← hok]; exact hI.chain
-      · show (des :: s.stk).Nodup
-        simp [hnotin, hI.nodup]
-      · intro m; show m ∈ des :: s.stk ↔ upd s.owner des none m = none
-        simp only [upd]; split
-        · simp_all
-        · rename_i hne; simp [hne, hI.own m]
-      · intro t'
-        by_cases e : t' = t
-        · subst e; simp [upd, Local]
-        · show Local _ t' (upd s.pc t Pc.pushDone t')
-          simp only [upd, e, if_false]
-          refine local_frame (hI.loc t') (fun m hm => ?_) rfl
-          have : m ≠ des := by
-            intro e'; subst e'; rw [h1.2.1] at hm; simp at hm; exact e hm.symm
-          exact ⟨rfl, by simp [upd, this]; exact hm⟩
-      · show stackReplay (s.lin ++ [.push des (s.data des)]) = some ((des :: s.stk).map (fun n => (n, s.data n)))
-        rw [stackReplay_snoc, hI.lin]; simp [stackStep]
+      exact inv_cas_success (att := s.att) hI h1.1 h1.2.1 (by rw [h1.2.2, hok]) (fun _ => by simp [Local])
     · exact ⟨hI.chain, hI.nodup, hI.own,
         loc_pconly hI rfl rfl rfl rfl (by simp [Local, h1.1, h1.2.1]), hI.lin⟩
+  · -- push_timeout
+    rename_i n hd b hpc
+    split at h
+    case isFalse => simp at h
+    rename_i hcond
+    obtain ⟨rfl, rfl, rfl, hok⟩ := hcond
+    have h1 := hI.loc t; rw [hpc] at h1; simp only [Local] at h1
+    split at h <;> simp at h <;> subst h
+    · rename_i hoktrue
+      simp [hoktrue] at hok
+      exact inv_cas_success hI h1.1 h1.2.1 (by rw [h1.2.2, hok]) (fun _ => by simp [Local])
+    · -- failure: retry with the refreshed head or give up; nothing but the pc (and the ghost
+      -- attempt counter) changes, the node stays with its owner
+      refine ⟨hI.chain, hI.nodup, hI.own, loc_pconly hI rfl rfl rfl rfl ?_, hI.lin⟩
+      by_cases hb : b - 1 = 0 <;> simp [hb, Local, h1.1, h1.2.1]
   · simp at h
 
 theorem step_xchg (s s' : St) (t old : Nat) (hI : Inv s)
@@ -365,6 +432,8 @@ theorem inv_step (s s' : St) (e : Ev) (hI : Inv s) (h : step s e = some s') : In
   | wrNext t n x => exact step_wrNext s s' t n x hI h
   | cas t f e d ok => exact step_cas s s' t f e d ok hI h
   | retPush t => exact step_retPush s s' t hI h
+  | callPushTo t v b => exact step_callPushTo s s' t v b hI h
+  | retPushTo t r => exact step_retPushTo s s' t r hI h
   | callFlush t b => exact step_callFlush s s' t b hI h
   | xchg t old => exact step_xchg s s' t old hI h
   | rdNext t n x => exact step_rdNext s s' t n x hI h
@@ -391,6 +460,314 @@ theorem push_cas_success {s s' : St} {t n h found exp des : Nat} (hI : Inv s)
     simp at hok hcas; subst hcas
     exact ⟨hok, h1.2.2, rfl, rfl, h1.2.1, by simp [upd], rfl⟩
   · simp at hcas
+
+
+/-! ### mpmc_stack_push_timeout -/
+
+/-- a successful CAS of push_timeout: exactly `push_cas_success` -/
+theorem pushto_cas_success {s s' : St} {t n h b found exp des : Nat} (hI : Inv s)
+    (hpc : s.pc t = .toWroteNext n h b) (hcas : step s (.cas t found exp des true) = some s') :
+    s.head = h ∧ s.next n = h ∧ s'.stk = n :: s.stk ∧ s'.head = n ∧ s.owner n = some t ∧
+      s'.owner n = none ∧ s'.lin = s.lin ++ [.push n (s.data n)] ∧ s'.pc t = .toDone := by
+  have h1 := hI.loc t; rw [hpc] at h1; simp only [Local] at h1
+  simp only [step, hpc] at hcas
+  split at hcas
+  · rename_i hc; obtain ⟨rfl, rfl, rfl, hok⟩ := hc
+    simp at hok hcas; subst hcas
+    exact ⟨hok, h1.2.2, rfl, rfl, h1.2.1, by simp [upd], rfl, by simp⟩
+  · simp at hcas
+
+/-- … and it is literally the step `mpmc_stack_push` would have made from the same state: put
+    the thread at the corresponding pc of the unbounded push; the same CAS event is accepted
+    there and the two successor states agree on every cell and every container ghost -/
+theorem pushto_success_is_push {s s' : St} {t n h b found exp des : Nat}
+    (hpc : s.pc t = .toWroteNext n h b) (hcas : step s (.cas t found exp des true) = some s') :
+    ∃ s0', step { s with pc := upd s.pc t (.pushWroteNext n h) } (.cas t found exp des true) = some s0' ∧
+      s'.head = s0'.head ∧ s'.next = s0'.next ∧ s'.data = s0'.data ∧ s'.owner = s0'.owner ∧
+      s'.stk = s0'.stk ∧ s'.res = s0'.res ∧ s'.lin = s0'.lin := by
+  simp only [step, hpc] at hcas
+  split at hcas
+  · rename_i hc
+    simp at hcas; subst hcas
+    simp only [step, upd_same]
+    rw [if_pos hc]
+    exact ⟨_, rfl, rfl, rfl, rfl, rfl, rfl, rfl, rfl⟩
+  · simp at hcas
+
+/-- a failed CAS of push_timeout found another head than expected and changes nothing but the
+    thread's pc (retry with the refreshed head while tries remain, else give up) -/
+theorem pushto_cas_failure {s s' : St} {t n h b found exp des : Nat}
+    (hpc : s.pc t = .toWroteNext n h b) (hcas : step s (.cas t found exp des false) = some s') :
+    found = s.head ∧ found ≠ h ∧ s'.head = s.head ∧ s'.next = s.next ∧ s'.data = s.data ∧
+      s'.owner = s.owner ∧ s'.stk = s.stk ∧ s'.res = s.res ∧ s'.lin = s.lin ∧
+      s'.pc t = (if b - 1 = 0 then .toGaveUp n else .toGotHead n found (b - 1)) := by
+  simp only [step, hpc] at hcas
+  split at hcas
+  · rename_i hc; obtain ⟨rfl, rfl, rfl, hok⟩ := hc
+    simp at hok hcas; subst hcas
+    exact ⟨rfl, hok, rfl, rfl, rfl, rfl, rfl, rfl, rfl, by simp⟩
+  · simp at hcas
+
+/-- a push_timeout that is about to report MPMC_RETRY still owns its node, which is not in
+    the container -/
+theorem gaveUp_unpublished {s : St} {t n : Nat} (hI : Inv s) (hpc : s.pc t = .toGaveUp n) :
+    n ≠ 0 ∧ s.owner n = some t ∧ n ∉ s.stk := by
+  have h1 := hI.loc t; rw [hpc] at h1; simp only [Local] at h1
+  refine ⟨h1.1, h1.2, ?_⟩
+  intro hm; have := (hI.own n).1 hm; rw [this] at h1; simp at h1
+
+/-- the thread performing an event -/
+def tidOf : Ev → Nat
+  | .callPush t _ => t
+  | .wrData t _ _ => t
+  | .ldHead t _ => t
+  | .wrNext t _ _ => t
+  | .cas t _ _ _ _ => t
+  | .retPush t => t
+  | .callPushTo t _ _ => t
+  | .retPushTo t _ => t
+  | .callFlush t _ => t
+  | .xchg t _ => t
+  | .rdNext t _ _ => t
+  | .rdData t _ _ => t
+  | .item t _ => t
+  | .retFlush t _ => t
+
+/-- the events that change the container: a successful CAS and the exchange -/
+def publishes : Ev → Bool
+  | .cas _ _ _ _ ok => ok
+  | .xchg _ _ => true
+  | _ => false
+
+/-- every other step leaves `head`, the abstract stack, the ownership and the linearisation alone -/
+theorem step_frame {s s' : St} {e : Ev} (h : step s e = some s') (hp : publishes e = false) :
+    s'.head = s.head ∧ s'.stk = s.stk ∧ s'.owner = s.owner ∧ s'.lin = s.lin := by
+  cases e <;> simp only [step] at h <;> simp only [publishes] at hp
+  case xchg => simp at hp
+  case cas t f e d ok =>
+    subst hp
+    (repeat' split at h) <;> simp at h <;> (try obtain ⟨_, h⟩ := h) <;> (try subst h) <;>
+      first | exact ⟨rfl, rfl, rfl, rfl⟩ | simp_all
+  all_goals
+    (repeat' split at h) <;> simp at h <;> (try obtain ⟨_, h⟩ := h) <;> (try subst h) <;> exact ⟨rfl, rfl, rfl, rfl⟩
+
+/-- a step only touches the pc and the attempt counters of the thread that performs it -/
+theorem step_other {s s' : St} {e : Ev} {t' : Nat} (h : step s e = some s') (ht : t' ≠ tidOf e) :
+    s'.pc t' = s.pc t' ∧ s'.att t' = s.att t' ∧ s'.tries0 t' = s.tries0 t' := by
+  cases e <;> simp only [step] at h <;> simp only [tidOf] at ht <;>
+    (repeat' split at h) <;> simp at h <;> (try obtain ⟨_, h⟩ := h) <;> (try subst h) <;> simp [upd, ht]
+
+/-! #### budget: at most `tries` CAS attempts -/
+
+/-- remaining tries + attempts made = the budget the call was given -/
+def BudOk (s : St) (t : Nat) : Pc → Prop
+  | .toCalled _ b => 1 ≤ b ∧ b = s.tries0 t ∧ s.att t = 0
+  | .toReady _ b => 1 ≤ b ∧ b = s.tries0 t ∧ s.att t = 0
+  | .toGotHead _ _ b => 1 ≤ b ∧ s.att t + b = s.tries0 t
+  | .toWroteNext _ _ b => 1 ≤ b ∧ s.att t + b = s.tries0 t
+  | .toGaveUp _ => s.att t = s.tries0 t
+  | _ => s.att t ≤ s.tries0 t
+
+theorem BudOk.le {s : St} {t : Nat} {pc : Pc} (h : BudOk s t pc) : s.att t ≤ s.tries0 t := by
+  cases pc <;> simp only [BudOk] at h <;> omega
+
+theorem bud_step {s s' : St} {e : Ev} (hI : ∀ t, BudOk s t (s.pc t)) (h : step s e = some s') :
+    ∀ t, BudOk s' t (s'.pc t) := by
+  intro t'
+  by_cases ht : t' = tidOf e
+  · subst ht
+    have h0 := hI (tidOf e)
+    cases e <;> simp only [step] at h <;> simp only [tidOf] at h0 ⊢ <;>
+      (repeat' split at h) <;> simp at h <;> (try obtain ⟨_, h⟩ := h) <;> (try subst h) <;>
+      simp_all [BudOk, upd] <;> omega
+  · obtain ⟨h1, h2, h3⟩ := step_other h ht
+    have h0 := hI t'
+    rw [h1]
+    cases hpc : s.pc t' <;> rw [hpc] at h0 <;> simp only [BudOk] at h0 ⊢ <;> omega
+
+theorem bud_of_run {own0 : Nat → Nat} {es : List Ev} {s : St} (h : (sys own0).run es = some s) :
+    ∀ t, BudOk s t (s.pc t) :=
+  Sys.inv_of_run (sys own0) (fun s => ∀ t, BudOk s t (s.pc t))
+    (by intro t; simp [sys, init, BudOk]) (fun s e s' hI hs => bud_step hI hs) h
+
+
+/-! #### operation level: the events of a thread's current operation -/
+
+/-- `e` is a call note of thread `t` -/
+def isCallOf (t : Nat) : Ev → Bool
+  | .callPush t' _ => t' = t
+  | .callPushTo t' _ _ => t' = t
+  | .callFlush t' _ => t' = t
+  | _ => false
+
+/-- `e` is a CAS (successful or not) by thread `t` -/
+def isCasOf (t : Nat) : Ev → Bool
+  | .cas t' _ _ _ _ => t' = t
+  | _ => false
+
+/-- the events after thread `t`'s latest call note (events of all threads, in trace order) -/
+def curOp (t : Nat) (es : List Ev) : List Ev :=
+  (es.reverse.takeWhile (fun e => !isCallOf t e)).reverse
+
+/-- thread `t`'s latest call note -/
+def callOf (t : Nat) (es : List Ev) : Option Ev := es.reverse.find? (isCallOf t)
+
+/-- number of CAS attempts thread `t` made in `es` -/
+def casCount (t : Nat) (es : List Ev) : Nat := (es.filter (isCasOf t)).length
+
+theorem curOp_snoc (t : Nat) (es : List Ev) (e : Ev) :
+    curOp t (es ++ [e]) = if isCallOf t e then [] else curOp t es ++ [e] := by
+  simp only [curOp, List.reverse_append, List.reverse_cons, List.reverse_nil, List.nil_append,
+    List.singleton_append, List.takeWhile_cons]
+  cases isCallOf t e <;> simp
+
+theorem callOf_snoc (t : Nat) (es : List Ev) (e : Ev) :
+    callOf t (es ++ [e]) = if isCallOf t e then some e else callOf t es := by
+  simp only [callOf, List.reverse_append, List.reverse_cons, List.reverse_nil, List.nil_append,
+    List.singleton_append, List.find?_cons]
+  cases isCallOf t e <;> simp
+
+theorem casCount_snoc (t : Nat) (es : List Ev) (e : Ev) :
+    casCount t (es ++ [e]) = casCount t es + (if isCasOf t e then 1 else 0) := by
+  simp only [casCount, List.filter_append, List.length_append]
+  cases h : isCasOf t e <;> simp [List.filter, h]
+
+theorem tid_of_isCallOf {t : Nat} {e : Ev} (h : isCallOf t e = true) : tidOf e = t := by
+  cases e <;> simp [isCallOf] at h <;> simp [tidOf, h]
+
+theorem tid_of_isCasOf {t : Nat} {e : Ev} (h : isCasOf t e = true) : tidOf e = t := by
+  cases e <;> simp [isCasOf] at h <;> simp [tidOf, h]
+
+/-- inside a push_timeout that has not succeeded (yet, or at all) -/
+def toPending : Pc → Bool
+  | .toCalled _ _ => true
+  | .toReady _ _ => true
+  | .toGotHead _ _ _ => true
+  | .toWroteNext _ _ _ => true
+  | .toGaveUp _ => true
+  | _ => false
+
+/-- inside a push_timeout -/
+def inTo : Pc → Bool
+  | .toDone => true
+  | pc => toPending pc
+
+/-- a thread is inside a not-yet-successful push_timeout only if it was so before or has just
+    called it; and the step it made did not change the container -/
+theorem pending_step {s s' : St} {e : Ev} (h : step s e = some s')
+    (hp : toPending (s'.pc (tidOf e)) = true) (hc : isCallOf (tidOf e) e = false) :
+    toPending (s.pc (tidOf e)) = true ∧ publishes e = false := by
+  cases e <;> simp only [step] at h <;> simp only [tidOf] at hp hc ⊢ <;>
+    (repeat' split at h) <;> simp at h <;> (try obtain ⟨_, h⟩ := h) <;> (try subst h) <;>
+    simp_all [toPending, publishes, isCallOf, upd]
+
+/-- bookkeeping of the ghost attempt counter against the trace -/
+theorem inTo_step {s s' : St} {e : Ev} (h : step s e = some s')
+    (hp : inTo (s'.pc (tidOf e)) = true) :
+    (isCallOf (tidOf e) e = true ∧ s'.att (tidOf e) = 0 ∧
+        ∃ v, e = .callPushTo (tidOf e) v (s'.tries0 (tidOf e))) ∨
+    (isCallOf (tidOf e) e = false ∧ inTo (s.pc (tidOf e)) = true ∧
+        s'.tries0 (tidOf e) = s.tries0 (tidOf e) ∧
+        s'.att (tidOf e) = s.att (tidOf e) + (if isCasOf (tidOf e) e then 1 else 0)) := by
+  cases e <;> simp only [step] at h <;> simp only [tidOf] at hp ⊢ <;>
+    (repeat' split at h) <;> simp at h <;> (try obtain ⟨_, h⟩ := h) <;> (try subst h) <;>
+    simp_all [inTo, toPending, isCasOf, isCallOf, upd]
+
+/-- history invariant: (1) no event of a not-yet-successful push_timeout changed the container;
+    (2) the ghost attempt counter is the number of CAS events of the operation; (3) the ghost
+    budget is the one the operation was called with -/
+structure OpInv (s : St) (es : List Ev) : Prop where
+  quiet : ∀ t, toPending (s.pc t) = true → ∀ e ∈ curOp t es, tidOf e = t → publishes e = false
+  count : ∀ t, inTo (s.pc t) = true → s.att t = casCount t (curOp t es)
+  call : ∀ t, inTo (s.pc t) = true → ∃ v, callOf t es = some (.callPushTo t v (s.tries0 t))
+
+theorem opInv_step {s s' : St} {es : List Ev} {e : Ev} (hI : OpInv s es) (h : step s e = some s') :
+    OpInv s' (es ++ [e]) := by
+  refine ⟨?_, ?_, ?_⟩
+  · intro t hp e' he' ht'
+    by_cases ht : t = tidOf e
+    · subst ht
+      by_cases hc : isCallOf (tidOf e) e = true
+      · rw [curOp_snoc, if_pos hc] at he'; simp at he'
+      · have hc' : isCallOf (tidOf e) e = false := by simpa using hc
+        obtain ⟨hp0, hq⟩ := pending_step h hp hc'
+        rw [curOp_snoc] at he'; simp only [hc', Bool.false_eq_true, if_false, List.mem_append,
+          List.mem_singleton] at he'
+        rcases he' with he' | rfl
+        · exact hI.quiet _ hp0 e' he' ht'
+        · exact hq
+    · have hc' : isCallOf t e = false := by
+        cases hc : isCallOf t e
+        · rfl
+        · exact absurd (tid_of_isCallOf hc).symm ht
+      rw [(step_other h ht).1] at hp
+      rw [curOp_snoc] at he'; simp only [hc', Bool.false_eq_true, if_false, List.mem_append,
+        List.mem_singleton] at he'
+      rcases he' with he' | rfl
+      · exact hI.quiet _ hp e' he' ht'
+      · exact absurd ht'.symm ht
+  · intro t hp
+    by_cases ht : t = tidOf e
+    · subst ht
+      rcases inTo_step h hp with ⟨hc, ha, _⟩ | ⟨hc, hp0, _, ha⟩
+      · rw [curOp_snoc, if_pos hc, ha]; rfl
+      · rw [curOp_snoc]; simp only [hc, Bool.false_eq_true, if_false]
+        rw [casCount_snoc, ha, hI.count _ hp0]
+    · have hc' : isCallOf t e = false := by
+        cases hc : isCallOf t e
+        · rfl
+        · exact absurd (tid_of_isCallOf hc).symm ht
+      have hcas : isCasOf t e = false := by
+        cases hc : isCasOf t e
+        · rfl
+        · exact absurd (tid_of_isCasOf hc).symm ht
+      obtain ⟨h1, h2, _⟩ := step_other h ht
+      rw [h1] at hp
+      rw [curOp_snoc]; simp only [hc', Bool.false_eq_true, if_false]
+      rw [casCount_snoc, h2, hI.count _ hp, hcas]; simp
+  · intro t hp
+    by_cases ht : t = tidOf e
+    · subst ht
+      rcases inTo_step h hp with ⟨hc, _, v, hv⟩ | ⟨hc, hp0, htr, _⟩
+      · rw [callOf_snoc, if_pos hc]; exact ⟨v, by rw [← hv]⟩
+      · rw [callOf_snoc]; simp only [hc, Bool.false_eq_true, if_false]
+        rw [htr]; exact hI.call _ hp0
+    · have hc' : isCallOf t e = false := by
+        cases hc : isCallOf t e
+        · rfl
+        · exact absurd (tid_of_isCallOf hc).symm ht
+      obtain ⟨h1, _, h3⟩ := step_other h ht
+      rw [h1] at hp
+      rw [callOf_snoc]; simp only [hc', Bool.false_eq_true, if_false]
+      rw [h3]; exact hI.call _ hp
+
+theorem opInv_of_run {own0 : Nat → Nat} {es : List Ev} {s : St} (h : (sys own0).run es = some s) :
+    OpInv s es :=
+  Sys.hist_inv_of_run (sys own0) OpInv
+    ⟨by simp [sys, init, toPending], by simp [sys, init, inTo, toPending],
+     by simp [sys, init, inTo, toPending]⟩
+    (fun s es e s' hI hs => opInv_step hI hs) h
+
+/-- the model only accepts push_timeout calls with `tries ≥ 1` -/
+theorem call_budget_pos {own0 : Nat → Nat} {es : List Ev} {s : St} (h : (sys own0).run es = some s) :
+    ∀ t v b, Ev.callPushTo t v b ∈ es → 1 ≤ b := by
+  refine Sys.hist_inv_of_run (sys own0) (fun _ es => ∀ t v b, Ev.callPushTo t v b ∈ es → 1 ≤ b)
+    (by simp) ?_ h
+  intro s es e s' hI hs t v b hm
+  simp only [List.mem_append, List.mem_singleton] at hm
+  rcases hm with hm | rfl
+  · exact hI t v b hm
+  · simp only [sys, step] at hs
+    split at hs
+    · rename_i hc; exact hc.2.2
+    · simp at hs
+
+theorem callOf_budget_pos {own0 : Nat → Nat} {es : List Ev} {s : St} {t v b : Nat}
+    (h : (sys own0).run es = some s) (hc : callOf t es = some (.callPushTo t v b)) : 1 ≤ b := by
+  have hm : Ev.callPushTo t v b ∈ es := by
+    have := List.mem_of_find?_eq_some hc
+    simpa using this
+  exact call_budget_pos h t v b hm
 
 /-- the exchange takes EVERYTHING: the pointer it returns heads exactly the abstract stack,
     the container is empty afterwards, every taken node now belongs to the flusher alone, and
@@ -433,10 +810,11 @@ theorem lin_ops_step {s s' : St} {e : Ev} (h : step s e = some s')
   cases e <;> simp only [step] at h
   case cas t f e d ok =>
     (repeat' split at h) <;> simp at h <;> subst h
-    · intro o ho; simp at ho; rcases ho with ho | rfl
-      · exact hI o ho
-      · simp [isPushOp]
-    · exact hI
+    all_goals first
+      | exact hI
+      | (intro o ho; simp at ho; rcases ho with ho | rfl
+         · exact hI o ho
+         · simp [isPushOp])
   case xchg t old =>
     split at h
     · split at h
